@@ -1,5 +1,6 @@
 from pedal.core.final_feedback import FinalFeedback, set_correct_no_errors
 from pedal.resolvers.core import make_resolver
+from pedal.utilities import verif_hooks
 from pedal.core.report import MAIN_REPORT
 from pedal.core.feedback import Feedback
 from pedal.resolvers.simple import by_priority
@@ -59,4 +60,6 @@ def resolve(report=MAIN_REPORT, priority_key=by_priority):
     final.used = used
     report.result = final
     report.resolves.append(final)
+    if verif_hooks.ENABLED:
+        verif_hooks.emit("resolve", report=report, final=final)
     return final
